@@ -216,6 +216,34 @@ CLAIMED = {
              'not under contract. F8 fixed (no routes at construction); F8b known (sub-application added after construction).',
         technique='contract-based: pyvc VCs over the real AST discharged by z3 (K) + bounded native WSGI validator suite',
         design_ref='DESIGN.md 7 C13'),
+    'C10': dict(
+        text='K: BoundRoute.__init__ against the abstract view (pattern == prefix + pattern; slash mode inherited unless opted out; '
+             'resources == app (+) route with the route winning at bind time; middlewares == MERGE(route, app); bound_apps extended; '
+             'explicit callable render wins; render_error follows the binding application unless opted out; converters of the '
+             'prefixed pattern; one source per name), for first binding and re-binding; SubApplication.bind_all (every inner route '
+             're-bound in order with the prefix and the two flags, eagerly); merge_middlewares (C03 contract); BoundRoute.execute '
+             '(request-time precedence). L: merge associativity MERGE(MERGE(r,i),o) == MERGE(r, MERGE(i,o)) by a 13-step induction '
+             'chain; prefix composition; resources of all levels with the serving application winning. Bounded stand-in (labelled '
+             'bounded): random application trees (depth <= 3) against an independently flattened declaration.',
+        note='equal views => equal behaviour rests on the reads frame of dispatch (assumption); the nesting-depth induction is a '
+             'meta-argument over a contract verified for arbitrary already-bound routes.',
+        technique='contract-based: pyvc VCs over the real AST discharged by z3 (K, L) + bounded native flat-equivalence harness',
+        design_ref='DESIGN.md 7 C10'),
+    'C12': dict(
+        text='K (confinement frames, checked on every exit and at every loop cut): on the request path -- Application.dispatch, '
+             '_dispatch_wsgi, BoundRoute.execute / execute_error / match_path / match_method, sinter.inject, normalize_path, '
+             'NullRoute.handle_sentinel_condition, DispatchState.add_exception / update_methods -- every store goes into an object '
+             'allocated during the call, the per-request request object, or the response/error object being produced; never into '
+             'the Application, its route list, a bound route, the error handler, a mutable parameter default or any other object '
+             'that existed before the call. K: the request id stored by _dispatch_wsgi is drawn from the one module-level counter. '
+             'T (evaluation on the real AST): class-wide writer scan (attributes of Application / BoundRoute / Route / ErrorHandler '
+             '/ Middleware are stored only by configuration-time methods), module-level mutable state, the id counter is a '
+             'module-level itertools.count().',
+        note='No schedule is explored: this is a schedule-independent sufficient condition plus a stated (not mechanised) '
+             'serialisability argument; A-gil for next() on the counter; interference through user code is not decided. A frame '
+             'violation has no failing schedule: VIOLATION lines end with no-failing-input-found.',
+        technique='contract-based: frame (assigns) obligations generated by pyvc on the real AST, discharged by z3; syntactic '
+                  'writer scan as T obligations', design_ref='DESIGN.md 7 C12'),
 }
 
 REASONS = {}
